@@ -1,6 +1,6 @@
 (* Driver entry for the system model (C02, C12, C18, C03). *)
 From Coq Require Import List String Ascii Arith Bool ZArith.
-From PC Require Import Base.Sexp Comp.Syntax Comp.Compile Subst.VarSubst Sys.System Sys.Des Finish.Apply Run.RComp.
+From PC Require Import Base.Sexp Comp.Syntax Comp.Compile Subst.VarSubst Sys.System Sys.Des Sys.DesSys Finish.Apply Run.RComp.
 Import ListNotations.
 Local Open Scope string_scope.
 
@@ -43,7 +43,12 @@ Definition run_des (req : sexp) : sexp :=
       match dL d_fentry files, dL dS incs, dN ctr, dL dZ args with
       | Some fs, Some incs, Some ctr, Some args =>
           match compile_des fs incs ctr base args with
-          | OK (lines, ctr') => sOk (Li [sN ctr'; sL s_dline lines])
+          | OK (lines, ctr') =>
+              (* the boolean hypotheses of the system-level C03 theorem, evaluated on the loaded object *)
+              let flags := match load_file fs incs 12 ctr base args "" "." with
+                           | OK r => [sB (sys_okb 12 (fst r)); sB (des_doc_okb (emit_des_obj 12 (fst r)))]
+                           | Err _ => [] end in
+              sOk (Li [sN ctr'; sL s_dline lines; Li flags])
           | Err k => sErr k
           end
       | _, _, _, _ => bad_request
